@@ -137,6 +137,7 @@ _dispatch_apply_serial(void *ctxt)
 	size_t const iter = da->da_iterations;
 	dispatch_invoke_flags_t flags;
 	size_t idx = 0;
+	DISPATCH_VERIF_PROBE(19);
 
 	_dispatch_perfmon_workitem_dec(); // this unit executes many items
 	flags = _dispatch_apply_autorelease_frequency(dc->dc_data);
@@ -235,6 +236,7 @@ _dispatch_apply_redirect(void *ctxt)
 	dispatch_apply_t da = (dispatch_apply_t)ctxt;
 	int32_t da_width = da->da_thr_cnt - 1;
 	dispatch_queue_t top_dq = da->da_dc->dc_data, dq = top_dq;
+	DISPATCH_VERIF_PROBE(20);
 
 	do {
 		int32_t width = _dispatch_queue_try_reserve_apply_width(dq, da_width);
